@@ -13,10 +13,13 @@ def unhex(s):
     return float.fromhex(s) if s not in ('nan', 'inf', '-inf') else float(s)
 
 
-def run_actions(model, t, acts):
+def run_actions(model, t, acts, kw=None):
     for a in acts:
         k = a[0]
-        if k == 'set':
+        if k == 'setkw':
+            # the value depends on an extra keyword argument handed down by solve_t / solve / solve_period (**kwargs forwarding)
+            model.__dict__['_V%d' % a[1]][t] = np.float64(unhex(a[2])) + np.float64((kw or {}).get(a[3], 0.0))
+        elif k == 'set':
             model.__dict__['_V%d' % a[1]][t] = unhex(a[2])
         elif k == 'warnset':
             before = float(model.__dict__['_V%d' % a[1]][t])
@@ -29,7 +32,7 @@ def run_actions(model, t, acts):
                 model.__dict__['_blocked'].append([a[1], int(t), before.hex() if before == before and abs(before) != float('inf') else repr(before)])
                 raise
             # the filter let the warning pass (recorded and dropped): the statement stores
-            model.__dict__.setdefault('_warn_stored', []).append([a[1], int(t)])
+            model.__dict__.setdefault('_warn_stored', []).append([a[1], int(t), category.__name__])
             model.__dict__['_V%d' % a[1]][t] = unhex(a[2])
         elif k == 'raise':
             raise CAUSES[a[1]]('scripted')
@@ -55,12 +58,17 @@ def make_class(base, nvars, check, endo, extra=()):
         def _pos(self, t):
             return t if t >= 0 else t + len(self.span)
 
+        def iter_periods(self, **kwargs):
+            # which extra keyword arguments solve() hands on to iter_periods()
+            self.__dict__.setdefault('_ipkw', []).append(sorted(k for k in kwargs if k not in ('start', 'end')))
+            return super().iter_periods(**kwargs)
+
         def solve_t_before(self, t, *, errors='raise', catch_first_error=True, iteration=None, **kwargs):
             self.__dict__['_evlog'].append(['before', int(t), int(iteration)])
             sc = self.__dict__['_scripts'].get(str(self._pos(t)))
             try:
                 if sc:
-                    run_actions(self, t, sc.get('before', []))
+                    run_actions(self, t, sc.get('before', []), kwargs)
             except Exception as e:
                 self.__dict__['_raised'].append(['before', int(t), 0, type(e).__name__])
                 raise
@@ -72,7 +80,7 @@ def make_class(base, nvars, check, endo, extra=()):
                 if sc:
                     passes = sc.get('passes', [])
                     if 1 <= iteration <= len(passes):
-                        run_actions(self, t, passes[iteration - 1])
+                        run_actions(self, t, passes[iteration - 1], kwargs)
             except Exception as e:
                 self.__dict__['_raised'].append(['pass', int(t), int(iteration), type(e).__name__])
                 raise
@@ -84,7 +92,7 @@ def make_class(base, nvars, check, endo, extra=()):
             sc = self.__dict__['_scripts'].get(str(self._pos(t)))
             try:
                 if sc:
-                    run_actions(self, t, sc.get('after', []))
+                    run_actions(self, t, sc.get('after', []), kwargs)
             except Exception as e:
                 self.__dict__['_raised'].append(['after', int(t), int(iteration), type(e).__name__])
                 raise
